@@ -27,7 +27,7 @@ std::vector<PairEntry> pairs_from()
 struct Ranges {
     int a, b;
 };
-Ranges ranges(mc::Reporter const& r) { return r.thorough() ? Ranges{2000, 40} : Ranges{200, 12}; }
+Ranges ranges(mc::Reporter const& r) { return r.thorough() ? Ranges{2000, 40} : Ranges{200, 3}; }
 
 template <typename FR, typename TR>
 void pair_job(mc::Reporter& r)
